@@ -349,13 +349,13 @@ Proof.
     cbn [kind_of result_kind is_vm acc_len acc_base acc_nelem kind_eqb orb va_len va_nelem va_esz ety_of e_size] in *.
     repeat split. apply N.leb_le. lia.
   - destruct Hs as (s & E1 & Hsz & Ha & ->). apply Hgs in E1.
-    cbn [kind_of result_kind is_vm acc_len acc_base kind_eqb orb tr_addr tr_size ety_of e_size e_align] in *.
+    cbn [kind_of result_kind is_vm acc_len acc_base kind_eqb orb tr_addr tr_size ety_of atomic_ety aty_of at_size at_align e_size e_align ref_align] in *.
     repeat split; [apply N.leb_le; lia|]. apply aligned_at_true. rewrite Hrb. exact Ha.
   - destruct Hs as (s & E1 & Hsz & Ha & ->). apply Hgs in E1.
-    cbn [kind_of result_kind is_vm acc_len acc_base kind_eqb orb tr_addr tr_size ety_of e_size e_align] in *.
+    cbn [kind_of result_kind is_vm acc_len acc_base kind_eqb orb tr_addr tr_size ety_of atomic_ety aty_of at_size at_align e_size e_align ref_align] in *.
     repeat split; [apply N.leb_le; lia|]. apply aligned_at_true. rewrite Hrb. exact Ha.
   - destruct Hs as (s & E1 & Hsz & Ha & ->). apply Hgs in E1.
-    cbn [kind_of result_kind is_vm acc_len acc_base kind_eqb orb tr_addr tr_size ety_of e_size e_align] in *.
+    cbn [kind_of result_kind is_vm acc_len acc_base kind_eqb orb tr_addr tr_size ety_of atomic_ety aty_of at_size at_align e_size e_align ref_align] in *.
     repeat split; [apply N.leb_le; lia|]. apply aligned_at_true. rewrite Hrb. exact Ha.
 Qed.
 
